@@ -764,4 +764,13 @@ func runC10(tier string, seed uint64, out *Out) {
 		}
 		mutLine(out, c10Kinds[rngM.Intn(4)], rngM.Intn(3) == 0, ts, rngM.Bytes(12, full), rngM.Bool(), fams)
 	}
+	// ---- mutations inside a batch (region client multi): see c10batch.go
+	nBatch := 400
+	if !quick {
+		nBatch = 20000
+	}
+	rngB := NewRNG(seed, "c10-batch")
+	for i := 0; i < nBatch; i++ {
+		c10Batch(out, rngB)
+	}
 }
